@@ -330,6 +330,23 @@ func (g *Gen) namesAt(at *ssa.BasicBlock, upTo int) map[string]Val {
 			if b == head && i >= upTo {
 				break
 			}
+			if al, isAlloc := ins.(*ssa.Alloc); isAlloc && isSimpleIdent(al.Comment) && al.Comment != "varargs" && al.Comment != "slicelit" && al.Comment != "complit" && al.Comment != "makeslice" {
+				// a source variable that lives in memory is always read through its cell
+				if v, ok := g.valOpt(al); ok {
+					best[al.Comment] = cand{Val{Addr: v.T, GoT: al.Type().Underlying().(*types.Pointer).Elem()}, 1 << 30, i}
+				}
+				continue
+			}
+			if phi, isPhi := ins.(*ssa.Phi); isPhi && isSimpleIdent(phi.Comment) {
+				// a phi (re)defines the source variable at the start of its block
+				if v, ok := g.valOpt(phi); ok {
+					c := cand{v, domDepth(b), i}
+					if o, ok := best[phi.Comment]; !ok || c.blk > o.blk || (c.blk == o.blk && c.ord > o.ord) {
+						best[phi.Comment] = c
+					}
+				}
+				continue
+			}
 			switch x := ins.(type) {
 			case *ssa.DebugRef:
 				name := debugName(x)
@@ -346,9 +363,12 @@ func (g *Gen) namesAt(at *ssa.BasicBlock, upTo int) map[string]Val {
 						continue
 					}
 					v = Val{Addr: v.T, GoT: pt.Elem()}
+					// a variable that lives in memory is always read through its cell
+					best[name] = cand{v, 1 << 30, i}
+					continue
 				}
 				c := cand{v, domDepth(b), i}
-				if o, ok := best[name]; !ok || c.blk > o.blk || (c.blk == o.blk && c.ord > o.ord) {
+				if o, ok := best[name]; !ok || (o.blk != 1<<30 && (c.blk > o.blk || (c.blk == o.blk && c.ord > o.ord))) {
 					best[name] = c
 				}
 			}
